@@ -216,6 +216,7 @@ func (e *kvElection) handleHeartbeatFailure(err error) {
 		)...,
 	)
 
+	verifNote(e, "hb_fail", 0)
 	e.becomeFollower()
 
 	e.mu.RLock()
@@ -241,6 +242,7 @@ func (e *kvElection) handleHealthCheckFailure() {
 		)...,
 	)
 
+	verifNote(e, "health_fail", 0)
 	e.becomeFollower()
 
 	e.mu.RLock()
